@@ -12,13 +12,24 @@ for sid in sorted(os.listdir(os.path.join(V, "seeded"))):
     meta = json.load(open(os.path.join(d, "meta.json")))
     prop = meta["property"]
     if only and sid not in only and prop not in only: continue
+    if not only and sid in results and results[sid].get("exit") is not None and not os.environ.get("REDO"): continue
     if prop not in claimed:
         results[sid] = dict(property=prop, outcome="property not claimed")
         continue
     wt = "/tmp/seedconf/%s" % prop
     subprocess.run("git checkout -q -- flumine && git apply %s/patch.diff" % d, cwd=wt, shell=True, check=True)
     t = time.time()
-    p = subprocess.run(["./check", prop, "--repo", wt, "--no-evidence"], cwd=V, capture_output=True, text=True)
+    import signal
+    proc = subprocess.Popen(["./check", prop, "--repo", wt, "--no-evidence"], cwd=V, stdout=subprocess.PIPE, stderr=subprocess.STDOUT, text=True, start_new_session=True)
+    class P: pass
+    p = P()
+    try:
+        out, _ = proc.communicate(timeout=int(os.environ.get("SEED_TIMEOUT", "2700")))
+        p.returncode, p.stdout = proc.returncode, out
+    except subprocess.TimeoutExpired:
+        os.killpg(proc.pid, signal.SIGKILL)  # the check and its solver workers (own session)
+        out, _ = proc.communicate()
+        p.returncode, p.stdout = 124, out or ""
     subprocess.run("git checkout -q -- flumine", cwd=wt, shell=True)
     viol = [l for l in p.stdout.splitlines() if l.startswith("VIOLATION")]
     und = [l for l in p.stdout.splitlines() if l.startswith("UNDECIDED")]
